@@ -11,8 +11,8 @@ CLAIMS = {
          'to the code on every run: the REAL handler of the current tree is driven over generated histories with spying wrappers around the real stores (memory, Redis/miniredis), key provider, '
          'generator, clock and a loopback token endpoint; every effect with its arguments and every response are recorded, the Coq model is replayed in lock-step on the recorded answers (any '
          "difference in effects, their order, their arguments or the projected response is a correspondence failure) and the property's monitor is evaluated on the implementation's own trace by coqc "
-         '(vm_compute). Quick: ~600 random histories (8-40 requests, faults before/after effect singly and in pairs, adversarial provider, both stores) + ~250 enumerated fault placements over 7 base '
-         'scenarios, each followed by healthy requests.'},
+         '(vm_compute). Quick: ~600 random histories (8-40 requests, faults before/after effect singly and in pairs, adversarial provider, both stores - Redis with two replicas -, 7 store timeouts, debug and info logging) + ~250 enumerated fault placements over 7 base '
+         'scenarios, each followed by healthy requests; a timeout ghost flags an OK for a session past its absolute/idle limit.'},
     'C02': {'note': 'Trusted: Coq kernel+vm_compute; hand-written model (validated by lock-step replay); Go harness; jwx / encoding/json / net/url behind descriptors computed by the harness (jwt.Parse result, '
          'independent stdlib signature verifier). Gallina axioms: none (Closed under the global context). Equal header names for ID and access token drop the ID token (config corner, Example '
          'C02_same_header_drops_id_token; not reported as a violation).',
@@ -101,7 +101,7 @@ CLAIMS = {
               'the models in lock-step + an observation-only band monitor + a system-level run through the real start-up wiring',
  'text': 'Machine-checked: C10_memory_rule_band, C10_redis_rule_band (never honoured after created+abs / last use+idle; alive whenever a whole second remains inside both), '
          'C10_honoured_only_if_alive, C10_live_session_is_honoured, C10_created_fixed (activity moves only the last-use stamp), C10_memory_store_follows_its_rule (refinement, all sequences, '
-         'arbitrary clock readings), C10_redis_store_follows_its_rule (refinement, all sequences with non-decreasing clocks). Tie to the code on every run: ~1,500 random operation sequences (3-30 ops, clock advances landing on / 1 ns / 1 s around each limit, 12 (abs,idle) pairs incl. '
+         'arbitrary clock readings), C10_redis_store_follows_its_rule (refinement, all sequences with non-decreasing clocks), C10_ok_only_if_alive / C10_ok_within_timeouts (the handler model on top of the abstract map gives OK only for a session alive under the rule: inside both limits). Tie to the code on every run: ~1,500 random operation sequences (3-30 ops, clock advances landing on / 1 ns / 1 s around each limit, 12 (abs,idle) pairs incl. '
          'zero) + all length-2 sequences over 2 ids x 6 ops x 3 advances, executed on the REAL memory store and the REAL Redis store (miniredis in step with the virtual clock), compared per '
          'operation with the Coq models of both stores (Redis at command level: HSET/HDEL/HSETNX/EXPIREAT in whole seconds) and judged by a band monitor that uses the observed results only; plus the '
          'store as assembled by NewSessionStoreFactory.PreRun with the real clock (2 s absolute, 1 s idle).'},
